@@ -22,10 +22,11 @@ def plainInlineL : List Node → Bool
 end
 
 /-- for every element id occurring in the subtree: no inline display style, not
-visibility-hidden, not a byline, not "unlikely", no embed -/
+visibility-hidden, not a byline, not "unlikely", no embed, not a foreign element named like a raw
+text element -/
 def PlainAtoms (A : CAtoms) (ids : List Nat) : Prop :=
   ∀ i ∈ ids, A.styleDisplay i = "" ∧ A.visHidden i = false ∧ A.byline i = false ∧
-    A.rxUnlikely i = false ∧ A.embed i = .none
+    A.rxUnlikely i = false ∧ A.embed i = .none ∧ A.foreignRaw i = false
 
 /-! ### builder side -/
 
@@ -275,12 +276,12 @@ theorem actionFor_noflush {A : CAtoms} {anc : List String} {i : Nat} {t : String
 
 def AtomsAt (A : CAtoms) (i : Nat) : Prop :=
   A.styleDisplay i = "" ∧ A.visHidden i = false ∧ A.byline i = false ∧
-    A.rxUnlikely i = false ∧ A.embed i = .none
+    A.rxUnlikely i = false ∧ A.embed i = .none ∧ A.foreignRaw i = false
 
 theorem gateSkip_plain (cfg : CCfg) {A : CAtoms} (anc : List String) {i : Nat} {t : String}
     {attrs : List Attr} (ks : List Node) (ht : t ∈ inlineOrBr) (ha : attrsPlain t attrs = true)
     (hA : AtomsAt A i) : gateSkip cfg A anc i t attrs ks = false := by
-  obtain ⟨a1, a2, a3, a4, _⟩ := hA
+  obtain ⟨a1, a2, a3, a4, _, a6⟩ := hA
   obtain ⟨f1, f2, _⟩ := inline_facts ht
   have hcls : getAttr attrs "class" = "" := getAttr_plain ha _ (by decide) (Or.inr (by decide))
   have hdc : getAttr attrs "data-component" = "" := getAttr_plain ha _ (by decide) (Or.inr (by decide))
@@ -296,7 +297,7 @@ theorem gateSkip_plain (cfg : CCfg) {A : CAtoms} (anc : List String) {i : Nat} {
     simp
   have hur : Gen.unlikelyRoles.contains "" = false := by decide +kernel
   unfold gateSkip
-  rw [hvis, hcls, hdc, hrole, a3, a4, f2, hur]
+  rw [hvis, a6, hcls, hdc, hrole, a3, a4, f2, hur]
   have e1 : (("" : String) == "sharing") = false := by decide
   have e2 : (("" : String) == "socialArea") = false := by decide
   have e3 : (("" : String) == "share") = false := by decide
@@ -358,7 +359,7 @@ theorem visitElem_br (cfg : CCfg) {A : CAtoms} (anc : List String) (hp : Bool) {
   have hg := gateSkip_plain cfg anc ks hb ha hA
   obtain ⟨_, _, f3, _⟩ := inline_facts hb
   unfold visitElem
-  rw [hg, hA.2.2.2.2]
+  rw [hg, hA.2.2.2.2.1]
   simp only [Bool.false_eq_true, if_false, ite_self]
   rw [tagSwitch_br A anc hp i ks ha, withTags_plain f3]
 
@@ -372,7 +373,7 @@ theorem visitElem_plain (cfg : CCfg) {A : CAtoms} (anc : List String) (hp : Bool
   have hg := gateSkip_plain cfg anc ks hb ha hA
   obtain ⟨_, _, f3, _⟩ := inline_facts hb
   unfold visitElem
-  rw [hg, hA.2.2.2.2]
+  rw [hg, hA.2.2.2.2.1]
   simp only [Bool.false_eq_true, if_false, ite_self]
   rw [withTags_plain f3]
   exact tagSwitch_plain A anc hp ks ht ha hA
@@ -565,7 +566,7 @@ def exAtoms : CAtoms :=
 
 example : plainInlineL exKids = true := by decide +kernel
 
-example : PlainAtoms exAtoms (allIdsL exKids) := fun _ _ => ⟨rfl, rfl, rfl, rfl, rfl⟩
+example : PlainAtoms exAtoms (allIdsL exKids) := fun _ _ => ⟨rfl, rfl, rfl, rfl, rfl, rfl⟩
 
 /-- and the paragraph is not skipped: all six text/br nodes reach the builder -/
 example : nodeIds (convertNode ⟨true⟩ exAtoms ["body"] true (.elem 0 "p" [] exKids)) = [1, 3, 4, 5, 7, 8] := by
